@@ -600,8 +600,12 @@ impl Drop for Thread {
             gc_to_drop.clear();
         }
 
-        let mut parent_threads = self.parent_threads();
-        parent_threads.remove(self.thread_index);
+        // A thread that could not be allocated (out of memory) is dropped before it was registered
+        // in its parent
+        if self.thread_index != usize::max_value() {
+            let mut parent_threads = self.parent_threads();
+            parent_threads.remove(self.thread_index);
+        }
     }
 }
 
